@@ -62,7 +62,7 @@ func (d *l2) compare(when string) {
 		d.fail("last_index", "%s: lastIndex %d, reference %d", when, li, d.ref.Last())
 	}
 	lo := max(fi, d.ref.Base+1)
-	for i := lo - 1; i <= li+1; i++ {
+	for i := lo - 1; i <= li+5; i++ {
 		if i+1 < fi || i < d.ref.Base {
 			continue
 		}
